@@ -1,4 +1,4 @@
-"""C15 -- scopes and name tables agree with Python's symbol table (VGC rules R15.1-R15.16)."""
+"""C15 -- scopes and name tables agree with Python's symbol table (VGC rules R15.1-R15.17)."""
 from __future__ import annotations
 
 import ast
@@ -21,6 +21,7 @@ EXPLANATION = (
     "by enclosing lookup.  Scope extents and inferred objects are not decided."
     ' R15.13: every pattern-typed field is passed on to a visitor that records capture names.  R15.14: a child x.F is traversed whenever present -- the visit may be conditional on x.F only, never on a sibling field.'
 )
+EXPLANATION += " R15.17: a `:=` target inside a comprehension is not local to the comprehension; the containing scope's visitor collects it."
 ASSUMPTIONS = [
     "handler summaries are flow-insensitive; an unknown idiom makes a field count as reached (under-approximation of gaps)",
     "the oracle tables BINDS/TARGET_FIELDS/SCOPES/REDIRECTS in sa/grammar.py state the language reference",
@@ -81,6 +82,7 @@ def check(ctx, res) -> None:
 
     import_binding_rule(ctx, res, "R15.12")
     sibling_search_rule(ctx, res, "R15.15")
+    walrus_in_comprehension_rule(ctx, res, "R15.17")
     comprehension_sees_parent_rule(ctx, res, "R15.16")
 
 
@@ -606,3 +608,33 @@ def comprehension_sees_parent_rule(ctx, res, rule: str) -> None:
                 f"the parent's names are taken over only when `{ast.unparse(kind_tests[0])}`: for a comprehension written directly in a CLASS body the class "
                 "attributes are not in its table, and the enclosing lookup skips class scopes -- `doubled = [i * 2 for i in items]` no longer resolves `items` "
                 "to the class attribute, rename leaves it behind (NameError or a module global of the same name)", function=f.qualname)
+
+
+def walrus_in_comprehension_rule(ctx, res, rule: str) -> None:
+    """R15.17 (= R01.15 = R02.20): PEP 572 -- the target of a `:=` inside a comprehension is bound in the scope that CONTAINS the
+    comprehension (the interpreter's symbol table marks it free in the comprehension).  (a) the visitor of a comprehension
+    scope does not file the target of a NamedExpr among the comprehension's own names: its `_NamedExpr` handler does not visit
+    `node.target`.  (b) the expression visitor of the containing scope, which creates the comprehension object instead of
+    descending into it, looks for NamedExpr nodes inside the comprehension."""
+    idx = ctx.idx
+    comp = idx.need_class("rope.base.pyobjectsdef._ComprehensionVisitor")
+    h = idx.find_method(comp.qualname, "_NamedExpr")
+    if h is None:
+        raise AnalysisError("anchor=_ComprehensionVisitor: no handler for NamedExpr in its MRO")
+    ps = param_names(h.node)
+    node_p = ps[1] if len(ps) > 1 else "node"
+    binds_here = any(isinstance(x, ast.Attribute) and x.attr == "target" and isinstance(x.value, ast.Name) and x.value.id == node_p for x in ast.walk(h.node))
+    res.add(rule, "_ComprehensionVisitor._NamedExpr|walrus-target-not-local-to-the-comprehension", not binds_here, h.where,
+            "the comprehension visitor does not bind the target of `:=`" if not binds_here else
+            f"the comprehension visitor handles NamedExpr with {h.qualname.split('.', 3)[-1]}, which files `node.target` among the names of the scope being visited -- the "
+            "comprehension: in `any((hit := w).startswith('b') for w in words); return hit` the two `hit` are different names for rope (the function's table has no "
+            "`hit`, lookup from the function finds nothing), so rename changes one and leaves the other", function=h.qualname)
+    ev = idx.need_class("rope.base.pyobjectsdef._ExpressionVisitor")
+    g = ev.methods.get("_GeneratorExp")
+    if g is None:
+        raise AnalysisError("anchor=_ExpressionVisitor._GeneratorExp missing")
+    looks = any((isinstance(x, ast.Attribute) and x.attr == "NamedExpr") or (isinstance(x, ast.Name) and x.id == "NamedExpr") for x in ast.walk(g.node))
+    res.add(rule, "_ExpressionVisitor._GeneratorExp|walrus-target-bound-in-containing-scope", looks, g.where,
+            "the containing scope's visitor collects the `:=` targets of the comprehension" if looks else
+            "the visitor of the containing scope creates the comprehension object and never looks inside it: the target of a `:=` in the comprehension is missing from "
+            "the containing scope's names although the interpreter binds it there", function=g.qualname)
